@@ -408,6 +408,19 @@ theorem C07_late_read_loaded_witness :
     ∧ ((startStream false [1] (compile false .top (lateLoaded true))).polls [[], [], [2], []]).out
       = [Poll.item "<i>1</i><!>".toList, Poll.done, Poll.done, Poll.done] := by decide
 
+/-- F-C07-8 (open; class `suspend-no-nonce`). With a nonce provided every boundary (`<Suspense>`, `<Transition>`,
+    `<Await>`) pushes its out-of-order chunk with the nonce, a `Suspend` outside every boundary pushes it without
+    (`compileA`, case `.top, .suspend`: `none`): the stream contains a `<script>` that a nonce-based CSP does not run. -/
+def nonceView : View :=
+  .seq [.suspend 1 (.raw "<i>v</i>".toList),
+        .suspense "<u>f</u>".toList (some "N".toList) [.suspend 2 (.raw "<b>w</b>".toList)]]
+
+set_option maxRecDepth 100000 in
+theorem C07_suspend_nonce_witness :
+    let out := itemsOf ((startStream true [] (compile true .top nonceView)).polls [[], [1, 2], [], []]).out
+    contains "<template id=\"1-f\"><i>v</i></template><script>".toList out = true
+    ∧ contains "<template id=\"2-f\"><b>w</b></template><script nonce=\"N\">".toList out = true := by decide
+
 /-! ## non-vacuity -/
 
 /-- two futures, both completion orders, in-order: different chunkings, same document; the hypothesis of
